@@ -181,6 +181,71 @@ def leg_L(res, r, tier):
     return n
 
 
+def leg_D(res, r, tier):
+    """string literals. (a) Model/MiniString.v = ministring.py on crafted strings (the writer side of the round-trip theorem);
+    (b) the reference decoder Model/StrDecode.v = CPython's own reading of literal texts built from escape pieces (the specification side):
+    on texts made of covered pieces only the two must agree exactly (same string, or both reject); on texts that also contain pieces the
+    decoder does not cover, whenever the decoder accepts, CPython must read the same string."""
+    import io, tokenize, warnings
+    from python_minifier.ministring import MiniString
+    from harness.props import c12
+    Q1, Q2 = chr(39), chr(34)
+    QUOTES = (Q1, Q2, Q1 * 3, Q2 * 3)
+    strs = list(c12.crafted_strings(r, 'quick'))
+    strs = strs[:2] + [x for i, x in enumerate(strs[2:]) if i % (6 if tier == 'quick' else 2) == 0]
+    cases = []
+    for x in strs:
+        for quote in QUOTES:
+            for safe in (False, True):
+                m = MiniString(x, quote)
+                m.safe_mode = safe
+                exp = m.to_short() if len(quote) == 1 else m.to_long()
+                f = 'to_short' if len(quote) == 1 else 'to_long'
+                cases.append('text_eqb (%s %s %d%%N %s) %s' % (f, 'true' if safe else 'false', ord(quote[0]), common.coq_N_list(x), common.coq_N_list(exp)))
+    nA = len(cases)
+    B = chr(92)
+    covered = ['a', 'Z', ' ', '#', '{', '%', '\t', '\x7f', '\xe9', '中', '\U0001f600', B + B, B + Q1, B + Q2, B + 'a', B + 'b', B + 'f', B + 'n', B + 'r', B + 't', B + 'v', B + 'x41', B + 'x00', B + 'xff', B + 'xFf',
+               B + 'u00e9', B + 'ud800', B + 'uFFFF', B + 'U0001f600', B + 'U0010ffff', B + 'U00110000', B + 'UFFFFFFFF', B + 'x4', B + 'xg1', B + 'u12', B + 'u12g4', B + 'U0001f60', '\n', Q2, Q1]
+    uncovered = [B + '0', B + '12', B + '377', B + 'N{DASH}', B + 'z', B + ' ', B + '\n', B + '8', B + 'N{nope}', '\r', B + '400', 'x' + B, B]
+    texts = []
+    for i in range(400 if tier == 'quick' else 4000):
+        pieces = covered if i % 3 else covered + uncovered
+        body = ''.join(r.choice(pieces) for _ in range(r.randint(0, 7)))
+        texts.append((r.choice(QUOTES), body, i % 3 != 0))
+    nB = 0
+    for quote, body, exact in texts:
+        text = quote + body + quote
+        if '\0' in text:
+            continue
+        try:
+            with warnings.catch_warnings():
+                warnings.simplefilter('ignore')
+                tree = ast.parse(text, mode='eval')
+            val = tree.body.value if isinstance(tree.body, ast.Constant) and isinstance(tree.body.value, str) else None
+            # implicit concatenation ('a''b') is several literals, not one
+            if sum(1 for t in tokenize.generate_tokens(io.StringIO(text).readline) if t.type == tokenize.STRING) != 1:
+                val = None
+        except (SyntaxError, ValueError, tokenize.TokenError):
+            val = None
+        call = 'dec %s %d%%N DNorm %s' % ('true' if len(quote) == 3 else 'false', ord(quote[0]), common.coq_N_list(body + quote))
+        if val is not None:
+            cases.append('match %s with Some (d, []) => text_eqb d %s | _ => %s end' % (call, common.coq_N_list(val), 'false' if exact else 'true'))
+        else:
+            cases.append('match %s with Some (_, []) => false | _ => true end' % call)
+        nB += 1
+    n, failing, raw = common.run_cases('c02D', ['From PM Require Import Model.Base Model.MiniString Model.StrDecode.', 'Open Scope bool_scope.'], cases)
+    if failing is None:
+        res.broken.append(('correspondence', 'leg D: string literal model evaluation failed: ' + raw[-400:]))
+    elif failing:
+        a = [i for i in failing if i < nA]
+        b = [i for i in failing if i >= nA]
+        if a:
+            res.broken.append(('correspondence', 'leg D: Model/MiniString.v disagrees with ministring.py on %d of %d (string, quote, mode) cases, e.g. %s' % (len(a), nA, cases[a[0]][:240])))
+        if b:
+            res.broken.append(('reference-model', 'leg D: the reference string-literal decoder disagrees with CPython on %d of %d literal texts, e.g. %s' % (len(b), nB, cases[b[0]][:240])))
+    return nA, nB
+
+
 # ------------------------------------------------------------------------------------------------ strict round-trip oracle
 FORMS = ['({0})+({1})', '({0})-({1})', '({0})*({1})', '({0})/({1})', '({0})//({1})', '({0})%({1})', '({0})@({1})', '({0})**({1})', '({0})<<({1})', '({0})>>({1})',
          '({0})&({1})', '({0})|({1})', '({0})^({1})', '-({0})', '+({0})', '~({0})', 'not ({0})', '({0}) and ({1})', '({0}) or ({1})', '({0}) and ({1}) and ({0})',
@@ -350,14 +415,15 @@ def run(pid, tier):
     res = common.Result(pid, tier)
     res.trusted = TRUSTED
     res.assumptions = ['only CPython 3.12.1 exists in the sandbox: the version-conditional arms of the printers are not exercised', 'the reference parser is validated against ast.parse only on printed and perturbed texts of the operator core']
-    common.standard_proof_phase(res, ['prectable', 'pipeline', 'tokenrules'], 'Properties/C02.v', model_targets=['Model/SyntaxTable.vo', 'Model/IntLit.vo'])
+    common.standard_proof_phase(res, ['prectable', 'pipeline', 'tokenrules'], 'Properties/C02.v', model_targets=['Model/SyntaxTable.vo', 'Model/IntLit.vo', 'Model/StrDecode.vo'])
     r = common.rng(pid)
     eff = tier if (not res.broken or tier == 'thorough') else 'search'
     with common.coq_lock():
         nPr, nP = legs_core(res, r, eff)
         nL = leg_L(res, r, eff)
+        nDa, nDb = leg_D(res, r, eff)
     nO = oracle(res, r, eff)
     res.samples = ['(-v1**-v2)**v3*(v4+v5)', FORMS[30].format('a', 'b'), STMTS[18]]
-    res.coverage.update({'leg_Pr_trees': nPr, 'leg_P_texts': nP, 'leg_L_integers': nL, 'oracle_round_trips': nO, 'evaluations': nPr + nP + nL + nO, 'distinct_nontrivial': nPr + nO,
+    res.coverage.update({'leg_Pr_trees': nPr, 'leg_P_texts': nP, 'leg_L_integers': nL, 'leg_D_ministring_cases': nDa, 'leg_D_literal_texts': nDb, 'oracle_round_trips': nO, 'evaluations': nPr + nP + nL + nDa + nDb + nO, 'distinct_nontrivial': nPr + nO,
                          'rule': 'leg Pr/P: random operator-core trees plus every (parent operator, slot, child operator) combination, printed texts and texts with one paren pair / one character removed; oracle: every expression form x atom, every (parent form, slot, child form), random depth 3, statement templates x expressions, corpus files; non-trivial = distinct source'})
     return res.finish()
